@@ -41,6 +41,7 @@ class Ctx:
         self.violations_total = 0
         self.errors = []
         self.evaluations = 0
+        self.units = 0
         self.max_samples = 6
         self.inflight_path = spec.get("inflight")
         self.t0 = time.time()
@@ -67,6 +68,11 @@ class Ctx:
             return
         self.sample_keys.add(key)
         self.samples.append(obj)
+
+    def unit(self, n=1):
+        """one judged execution (a case may hold several: configurations, flags, successor datasets): when a monitor
+        counts units, they are what the evidence reports as evaluations"""
+        self.units += n
 
     def begin(self, case):
         self.evaluations += 1
@@ -101,7 +107,7 @@ class Ctx:
         return {"prop": self.prop, "spec": self.spec, "counters": self.counters,
                 "digests": sorted(self.digests), "sets": {k: sorted(v) for k, v in self.sets.items()}, "samples": self.samples, "violations": self.violations,
                 "violations_total": self.violations_total, "errors": self.errors,
-                "evaluations": self.evaluations, "wall_s": round(time.time() - self.t0, 3)}
+                "evaluations": self.units or self.evaluations, "cases": self.evaluations, "wall_s": round(time.time() - self.t0, 3)}
 
 
 def jsonable(x):
